@@ -79,6 +79,24 @@ func init() {
 		"(*sync.RWMutex).RLock":      inMutexLock,
 		"(*sync.RWMutex).RUnlock":    inMutexUnlock,
 		"(*sync.Once).Do":            inOnceDo,
+		"(*sync/atomic.Pointer[T]).Load":            inAtomicLoad,
+		"(*sync/atomic.Pointer[T]).Store":           inAtomicStore,
+		"(*sync/atomic.Pointer[T]).Swap":            inAtomicSwap,
+		"(*sync/atomic.Pointer[T]).CompareAndSwap":  inAtomicCAS,
+		"(*sync/atomic.Int32).Load":   inAtomicLoad,
+		"(*sync/atomic.Int32).Store":  inAtomicStore,
+		"(*sync/atomic.Int32).Add":    inAtomicAdd,
+		"(*sync/atomic.Int64).Load":   inAtomicLoad,
+		"(*sync/atomic.Int64).Store":  inAtomicStore,
+		"(*sync/atomic.Int64).Add":    inAtomicAdd,
+		"(*sync/atomic.Uint32).Load":  inAtomicLoad,
+		"(*sync/atomic.Uint32).Store": inAtomicStore,
+		"(*sync/atomic.Uint32).Add":   inAtomicAdd,
+		"(*sync/atomic.Uint64).Load":  inAtomicLoad,
+		"(*sync/atomic.Uint64).Store": inAtomicStore,
+		"(*sync/atomic.Uint64).Add":   inAtomicAdd,
+		"(*sync/atomic.Bool).Load":    inAtomicLoad,
+		"(*sync/atomic.Bool).Store":   inAtomicStore,
 		"time.Now":                   inTimeNow,
 		"time.Since":                 inTimeSince,
 		"context.Background":         inCtxBackground,
@@ -1359,4 +1377,84 @@ func inDecodeRuneInString(r *Run, fn *ssa.Function, a []Value) Value {
 		}
 	}
 	return TupleV{rerr, r.mkInt(1)}
+}
+
+
+// ---- sync/atomic typed values: sequential semantics on the field named v
+// (the engine has no scheduler; every execution is single-threaded)
+
+func (r *Run) atomicField(fn *ssa.Function, recv Value) (PtrV, types.Type) {
+	p := recv.(PtrV)
+	if p.Obj == nil {
+		r.goPanic("nil atomic value")
+	}
+	st := fn.Signature.Recv().Type().Underlying().(*types.Pointer).Elem().Underlying().(*types.Struct)
+	for i := 0; i < st.NumFields(); i++ {
+		if st.Field(i).Name() == "v" {
+			return PtrV{Obj: p.Obj, Path: appendPath(p.Path, i)}, st.Field(i).Type()
+		}
+	}
+	r.unsupported("atomic value without field v")
+	return PtrV{}, nil
+}
+
+func (r *Run) atomicGet(fp PtrV, ft types.Type, fn *ssa.Function) Value {
+	v := r.load(fp)
+	// Pointer[T].v is an unsafe.Pointer holding a *T; Bool.v is a uint32
+	if res := fn.Signature.Results(); res.Len() == 1 {
+		if w, _, ok := intInfo(res.At(0).Type()); ok {
+			if t, isT := v.(*Term); isT {
+				if w == 0 && t.W != 0 {
+					return r.eng.tt.Not(r.eng.tt.Eq(t, r.eng.tt.Const(t.W, 0)))
+				}
+			}
+		}
+	}
+	return v
+}
+
+func (r *Run) atomicPut(fp PtrV, ft types.Type, v Value) {
+	if t, ok := v.(*Term); ok && t.W == 0 {
+		if w, _, okw := intInfo(ft); okw && w != 0 {
+			v = r.eng.tt.Ite(t, r.eng.tt.Const(w, 1), r.eng.tt.Const(w, 0))
+		}
+	}
+	r.store(fp, v)
+}
+
+func inAtomicLoad(r *Run, fn *ssa.Function, a []Value) Value {
+	fp, ft := r.atomicField(fn, a[0])
+	return r.atomicGet(fp, ft, fn)
+}
+
+func inAtomicStore(r *Run, fn *ssa.Function, a []Value) Value {
+	fp, ft := r.atomicField(fn, a[0])
+	r.atomicPut(fp, ft, a[1])
+	return nil
+}
+
+func inAtomicSwap(r *Run, fn *ssa.Function, a []Value) Value {
+	fp, ft := r.atomicField(fn, a[0])
+	old := r.atomicGet(fp, ft, fn)
+	r.atomicPut(fp, ft, a[1])
+	return old
+}
+
+func inAtomicCAS(r *Run, fn *ssa.Function, a []Value) Value {
+	fp, ft := r.atomicField(fn, a[0])
+	cur := r.load(fp)
+	eq := r.eqValue(cur, a[1], ft)
+	if r.Branch(eq) {
+		r.atomicPut(fp, ft, a[2])
+		return r.eng.tt.True
+	}
+	return r.eng.tt.False
+}
+
+func inAtomicAdd(r *Run, fn *ssa.Function, a []Value) Value {
+	fp, _ := r.atomicField(fn, a[0])
+	cur := r.load(fp).(*Term)
+	nv := r.eng.tt.Add(cur, a[1].(*Term))
+	r.store(fp, nv)
+	return nv
 }
